@@ -152,9 +152,19 @@ ZOO = [
     ('tuple-with-marker', '(u8, ::core::marker::PhantomData<u16>)', ['(0, ::core::marker::PhantomData)', '(1, ::core::marker::PhantomData)']),
     ('tuple-with-unit', '((u8, u8), ())', ['((0, 1), ())', '((1, 0), ())', '((0, 0), ())']),
     ('array-of-tuples', '[(u8, bool); 2]', ['[(0, true), (1, false)]', '[(0, true), (1, true)]']),
+    ('user-PhantomData', 'zoo_names::PhantomData<u8>', ['zoo_names::PhantomData(0)', 'zoo_names::PhantomData(1)', 'zoo_names::PhantomData(2)']),
+    ('user-Option', 'zoo_names::Option<u8>', ['zoo_names::Option(0)', 'zoo_names::Option(1)']),
+    ('user-Vec-String', '(zoo_names::Vec<u8>, zoo_names::String)', ['(zoo_names::Vec(0), zoo_names::String(0))', '(zoo_names::Vec(0), zoo_names::String(1))', '(zoo_names::Vec(1), zoo_names::String(0))']),
+    ('user-u8', 'zoo_prim::r#u8', ['zoo_prim::r#u8(false)', 'zoo_prim::r#u8(true)']),
     ('nested-ref', "Option<&'static (u8, &'static str)>", ['None', 'Some(&(0, "a"))', 'Some(&(0, "b"))']),
 ]
-ZOO_PRE = ("macro_rules! zoo_ty { () => { u8 }; }\npub trait ZooTr { type Out; }\nimpl ZooTr for u8 { type Out = u16; }\n"
+ZOO_NAMES = ("#[allow(non_camel_case_types, dead_code)]\npub mod zoo_names {\n"
+             "    #[derive(Debug, Clone, Copy, PartialEq, Eq, PartialOrd, Ord, Hash, Default)] pub struct PhantomData<T>(pub T);\n"
+             "    #[derive(Debug, Clone, Copy, PartialEq, Eq, PartialOrd, Ord, Hash, Default)] pub struct Option<T>(pub T);\n"
+             "    #[derive(Debug, Clone, Copy, PartialEq, Eq, PartialOrd, Ord, Hash, Default)] pub struct Vec<T>(pub T);\n"
+             "    #[derive(Debug, Clone, Copy, PartialEq, Eq, PartialOrd, Ord, Hash, Default)] pub struct String(pub u8);\n"
+             "}\n#[allow(non_camel_case_types, dead_code)]\npub mod zoo_prim {\n    #[derive(Debug, Clone, Copy, PartialEq, Eq, PartialOrd, Ord, Hash, Default)] pub struct r#u8(pub bool);\n}\n")
+ZOO_PRE = ZOO_NAMES + ("macro_rules! zoo_ty { () => { u8 }; }\npub trait ZooTr { type Out; }\nimpl ZooTr for u8 { type Out = u16; }\n"
            "fn zoo_inc(x: u8) -> u8 { x.wrapping_add(1) }\nfn zoo_dec(x: u8) -> u8 { x.wrapping_sub(1) }\nfn zoo_id(x: &u8) -> &u8 { x }\nfn zoo_id2(x: &u8) -> &u8 { let _ = 2; x }\n")
 
 
@@ -314,3 +324,25 @@ def decoy_layer(cases, n=60):
         if d is not None:
             out.append(d)
     return out
+
+
+LOCALS = {'f0': 'arg', 'f1': 'f', 'f2': 'builder', 'f3': 'state', 'f4': 'other'}
+
+
+def localsify(case, scheme=0):
+    """the same case with its named fields called like the locals the templates introduce (arg, f, builder, state, other, source, ...), and - scheme 1 - the first
+    field called like the custom method the case uses (a binding of that name would capture the method's path)"""
+    import re
+    from ..core import Case
+    if not re.search(r'\bf[0-4]\b', case.body):
+        return None
+    names = dict(LOCALS)
+    if scheme == 1:
+        names = {'f0': 'source', 'f1': 'educe__f', 'f2': 'other', 'f3': 'arg', 'f4': 'f'}
+        m = re.search(r'method\((?:crate::sup::)?([a-z_0-9]+)\)|method = "([a-z_0-9]+)"', case.body)
+        if m:
+            names['f0'] = m.group(1) or m.group(2)
+    body = re.sub(r'(?<![A-Za-z0-9_#.])f([0-4])\b(?!\()', lambda m_: names['f' + m_.group(1)], case.body)
+    spec = dict(case.spec)
+    spec['field_names'] = sorted(names.values())
+    return Case(case.key + '|locals%d' % scheme, body, spec, case.expect, case.run, case.depth + 1, case.tags)
